@@ -25,7 +25,8 @@ from core.common import f2b, b2f, close
 from core import impl as I
 
 ID = "C18"
-LEAN_MODULES = ["AcnProofs.C18", "AcnProofs.Lemmas.CodeTieAnalysis"]
+LEAN_MODULES = ["AcnProofs.C18"]
+TIE_MODULES = ["AcnProofs.Lemmas.CodeTieAnalysis"]
 DRIVER = "drv_C18"
 REQUIRED_THEOREMS = [
     "Acn.C18.aggregate_current_def", "Acn.C18.aggregate_power_def",
